@@ -54,6 +54,9 @@ Cases ==
      { cc \in { [kind |-> "vec_loan", method |-> m.name, loan |-> m.kind, path |-> m.path, stmt |-> s,
         expect |-> IF Legal(m, s) THEN "accept" ELSE "reject"] : m \in Methods, s \in Statements } :
          cc.stmt # "consume_twice" \/ cc.method \in {"pop", "remove", "swap_remove"} }
+  \cup { [kind |-> "pair", method |-> m1.name, loan |-> m1.kind, path |-> m1.path, stmt |-> m2.name,
+        expect |-> IF m1.kind = "shared" /\ m2.kind = "shared" THEN "accept" ELSE "reject"]      \* two handles alive at once: only shared + shared
+        : m1 \in {x \in Methods : x.name # "lazy_clone"}, m2 \in {x \in Methods : x.name # "lazy_clone"} }
   \cup { [kind |-> "view_reuse", method |-> vm, loan |-> "view", path |-> "typed", stmt |-> mu, expect |-> "reject"]
         : vm \in ViewMethods, mu \in ViewMutations }
   \cup { [kind |-> "two_paths", method |-> p, loan |-> "second", path |-> "mixed", stmt |-> "", expect |-> "reject"] : p \in TwoPaths }
